@@ -8,7 +8,10 @@
  4. property-level oracle on the real code: original vs compiled anf.transform output, run
     with operands whose every operation is a logged event (result, event order, exceptions),
     shape of the output (every position the configuration names holds a name/literal,
-    temporaries assigned once), lazy constructs rejected or left untouched; hygiene stream: variables of
+    temporaries assigned once), lazy constructs rejected or left untouched -- including the type expressions
+    of except clauses (try stream: clauses whose types are calls / attribute loads yielding real exception
+    classes / operations / tuples, bodies that raise; an accepted try statement keeps every clause type and
+    gets nothing hoisted in front of it on their behalf; Coq: 4th part of lazy_rejected); hygiene stream: variables of
     the program spelled like the identifiers the transformer itself uses (template placeholders, its own
     variables; harvested from the tree under test) -- same judgement, plus: renaming the variables of the
     input commutes with anf.transform (Coq: anf_renaming_invariant)
@@ -149,6 +152,13 @@ def shape_failures(orig, out, config, hoisted):
     return bad[:3]
 
 
+def pending_lost(out):
+    """the output reads a temporary that no statement of it defines"""
+    assigned = {n.targets[0].id for n in ast.walk(out) if isinstance(n, ast.Assign) and len(n.targets) == 1
+                and isinstance(n.targets[0], ast.Name)}
+    return bool(set(tmp_names(out)) - assigned)
+
+
 def classify(orig, out, config, what, detail=None):
     """Narrow classifiers of the known findings.  -> finding id or None"""
     from malt.pyct.common_transformers import anf
@@ -185,10 +195,7 @@ def classify(orig, out, config, what, detail=None):
                 return 'anf-operator-hoisted'
         # statements the transformer has no visitor for (annotated assignment, decorators, def defaults,
         # except-clause types, match subjects...) leave their hoisted statements pending: lost or misplaced
-        assigned = {n.targets[0].id for n in ast.walk(out) if isinstance(n, ast.Assign) and len(n.targets) == 1
-                    and isinstance(n.targets[0], ast.Name)}
-        used = set(tmp_names(out))
-        if used - assigned:
+        if pending_lost(out):
             return 'anf-pending-lost'
     # DummyGensym does not look at the program: a variable / parameter named tmp_1NNN (also: the
     # temporaries of an earlier ANF pass) is reused as a temporary
@@ -245,7 +252,47 @@ def lazy_positions(node, config):
             if G.Mirror(t.should, G.spec_trivial).expr(n.test)[1] or \
                     (not G.spec_trivial(n.test) and t.should(n, 'test', n.test)):
                 out.append(n)
+        elif isinstance(n, ast.ExceptHandler) and n.type is not None:
+            # the type of an except clause is evaluated only while an exception propagates, after the body and
+            # after the clauses before it: nothing below it can be hoisted to a statement position
+            if G.Mirror(t.should, G.spec_trivial).expr(n.type)[1]:
+                out.append(n.type)
     return out
+
+
+def try_statements(fn):
+    """the try statements of a function in source order (hoisted statements never are try statements and
+    blocks keep their order, so the k-th one of the output is the k-th one of the input)"""
+    out = []
+
+    def walk(n):
+        if isinstance(n, ast.Try):
+            out.append(n)
+        for c in ast.iter_child_nodes(n):
+            walk(c)
+    walk(fn)
+    return out
+
+
+EXCEPT_WHAT = ('the type expression of an except clause was rewritten: (part of) it is now evaluated at a statement position '
+               '(unconditionally, before the body) instead of while an exception propagates out of the body -- the laziness of '
+               'except clauses is not preserved, the try statement should have been rejected or left untouched')
+
+
+def except_type_failures(orig, out):
+    """Property text, `constructs whose laziness it cannot preserve are rejected rather than transformed`, judged
+    on the output: every except clause of an accepted function still has the type expression it had."""
+    to, tn = try_statements(orig), try_statements(out)
+    if len(to) != len(tn):
+        return [('lazy', 'the try statements of the function are not the ones of the input', '%d -> %d' % (len(to), len(tn)))]
+    for a, b in zip(to, tn):
+        if len(a.handlers) != len(b.handlers):
+            return [('lazy', 'the except clauses of a try statement are not the ones of the input', unparse(b))]
+        for ha, hb in zip(a.handlers, b.handlers):
+            if (ha.type is None) != (hb.type is None) or (ha.type is not None and plain_dump(ha.type) != plain_dump(hb.type)):
+                return [('lazy', EXCEPT_WHAT, {'except_type': unparse(ha.type) if ha.type is not None else None,
+                                               'after_transform': unparse(hb.type) if hb.type is not None else None})]
+    return []
 
 
 HYGIENE_WHAT = ('the output of anf.transform depends on how a variable of the program is spelled: renaming variables of the '
@@ -310,6 +357,7 @@ def oracle(src, config, seed, tree=None, renamed_from=None):
         # evaluated unconditionally): the property asks for an error
         fails.append(('lazy', 'a lazy construct out of which the configuration hoists something was accepted instead of rejected',
                       unparse(lazies[0])))
+    fails += except_type_failures(orig, out)
     for what, detail in shape_failures(orig, out, config, hoisted):
         fails.append(('gensym' if 'temporary' in what else 'shape', what, detail))
     # execution: same result, same events in the same order
@@ -415,6 +463,22 @@ def _programs(run):
         g = G.Gen(rnd, 'model', lazy=0.25, maxdepth=rnd.choice([2, 3]))
         cfg, cd = dsel[rnd.randrange(len(dsel))] if rnd.random() < 0.5 else G.gen_config(rnd, anf)
         progs.append(('lazy', g.program(nstmts=rnd.randint(1, 2), depth=rnd.choice([0, 1])), cfg, cd))
+    # try statements: the type expressions of except clauses are lazy positions (evaluated only while an exception
+    # propagates, after the body, clause by clause).  Fixed shapes x (default, depth-selective and try-naming
+    # configurations), then random programs in which most compound statements are try statements with 1-3 clauses
+    # whose types are names, attribute loads (real exception classes), calls, operations with operands, tuples.
+    trnd = random.Random(run.seed * 2750159 + 18)
+    tcfgs = G.try_configs(anf)
+    for body in G.TRY_PROGRAMS:
+        for cfg, cd in [(None, 'default')] + tcfgs + dsel:
+            progs.append(('try', 'def fn(%s):\n  %s\n' % (', '.join(G.PARAMS), body), cfg, cd))
+    for i in range(900 if thorough else 260):
+        g = G.Gen(trnd, 'model' if trnd.random() < 0.7 else 'wide', lazy=0.0, maxdepth=trnd.choice([1, 2, 2, 3]),
+                  tryp=trnd.choice([0.5, 0.8]))
+        j = trnd.random()
+        cfg, cd = tcfgs[trnd.randrange(len(tcfgs))] if j < 0.15 else dsel[trnd.randrange(len(dsel))] if j < 0.3 \
+            else G.gen_config(trnd, anf, handlers=True)
+        progs.append(('try', g.program(depth=trnd.choice([1, 2, 2])), cfg, cd))
     # hygiene: variables spelled like the identifiers the transformer uses itself.  Every template placeholder
     # of the anchor files, in every role (fixed shapes) and in random programs where it is read inside a hoisted
     # operand; all placeholders at once; then random programs x random configurations with 1-4 variables renamed
@@ -476,7 +540,9 @@ def check(run):
     run.rule = ('seeded programs (expression depth <= 3, 1-4 statements, if/for/while/with/try nesting <= 2) with a logged '
                 'operation in every operand position x configuration (45% default, else 0-3 random edge patterns + optional '
                 'default tail); streams: model fragment, wide (slices, ** entries, tuple targets, del, try, several with items), '
-                'lazy (BoolOp/IfExp/lambda/comprehension/chained comparison), hygiene (variables renamed to the template '
+                'lazy (BoolOp/IfExp/lambda/comprehension/chained comparison), try (try statements with 1-3 except clauses whose type '
+                'expressions are names, attribute loads yielding real exception classes, calls, operations, tuples; bodies that '
+                'raise; x default / depth-selective / try-naming / random configurations), hygiene (variables renamed to the template '
                 'placeholder names and other identifiers of anf.py / templates.py / transformer.py of the tree under test, '
                 'every placeholder in every role); distinct non-trivial = distinct '
                 '(program, configuration) pairs the transformer accepted and changed')
@@ -537,6 +603,10 @@ def _check(run):
                 raise X.Untranslatable('operator tokens exposed to the configuration')
             p = X.export_block(orig.body)
             c = X.export_config(cfg, anf)
+            if status == 'accepted' and pending_lost(out):
+                # known finding anf-pending-lost (reported above): the output reads a temporary no statement
+                # defines -- not the transformer the model describes (the model rejects)
+                raise X.Untranslatable('pending statements lost')
             if status == 'accepted':
                 e = '(Some %s)' % X.export_block(out.body, tmps=True)
             elif status == 'rejected':
